@@ -19,7 +19,7 @@ def script(rng, chunks, maxlen):
     for _ in range(rng.randrange(0, maxlen + 1)):
         c = rng.randrange(8)
         if c <= 2:
-            n = rng.choice([0, 1, 2, 5])
+            n = rng.choice([0, 1, 2, 5, 1, 2, len(cur), len(cur) + 1, max(0, len(cur) - 1), 4096])
             ops.append("r%d" % n)
             if n and cur:
                 if n < len(cur):
@@ -62,6 +62,11 @@ def gen(tier, rng):
             parts.append(s[i:i + k])
             i += k
         cases.append("refnal %s %s" % (nal_src(parts, rng.random() < 0.5), script(rng, parts, 12)))
+    # chunks of 4 KiB and more with reads that fit a chunk exactly / span chunks (gather and block fast paths)
+    for _ in range(300 if tier == "quick" else 6000):
+        sizes = [rng.choice([1, 5, 100, 4095, 4096, 4097, 5000, 8192]) for _ in range(rng.randrange(2, 5))]
+        parts = [bytes(rng.randrange(256) for _ in range(k)) for k in sizes]
+        cases.append("refnal %s %s" % (nal_src(parts, rng.random() < 0.5), script(rng, parts, 8)))
     return cases
 
 
